@@ -49,9 +49,41 @@ def match_known(prop, clause, culprit, known):
     return None
 
 
+def probe_pdaniell(replaying=False):
+    """Fixed probe (sim/probes.py): pdaniell's frequencies() against its psd.  Returns 0, 1 or 2."""
+    from sim import probes
+    engine.ensure_ctx({})
+    bad = engine.in_pristine_child(probes.pdaniell_freq_len)
+    if isinstance(bad, dict):
+        print("HARNESS-ERROR: pdaniell probe: " + bad.get("fatal", "?")[-800:])
+        return 2
+    if not bad:
+        if replaying:
+            print("replay: no violation (pdaniell: len(frequencies()) == len(psd) in all probe cases)")
+        return 0
+    listed = [k for k in load_known() if k.get("status") == "known" and k.get("id") == "pdaniell-freq-len"]
+    first = bad[0]
+    detail = ("pdaniell(%s[%d], P=%d, NFFT=%d): len(psd)=%d but len(frequencies())=%d after the first read (%d of %d "
+              "probe cases)" % ("complex" if first["complex"] else "real", first["N"], first["P"], first["N"],
+                                first["len_psd"], first["len_frequencies"], len(bad), len(probes.CASES)))
+    if listed:
+        print("KNOWN-FINDING: property=C07 %s -- %s" % (listed[0]["what_fails"], detail))
+        return 0
+    path = os.path.join(VERIF, "replays", "C07", "probe_pdaniell_freq_len.json")
+    os.makedirs(os.path.dirname(path), exist_ok=True)
+    with open(path, "w") as f:
+        json.dump({"kind": "probe", "probe": "pdaniell_freq_len", "property": "C07", "clause": "freq_len",
+                   "failing_cases": bad}, f, indent=1)
+    print("violation clause=freq_len: " + detail)
+    print("VIOLATION property=C07 replay=%s" % path)
+    return 1
+
+
 def replay_file(path, quiet=False):
     with open(path) as f:
         rep = json.load(f)
+    if rep.get("kind") == "probe":
+        return probe_pdaniell(replaying=True)
     m = engine.machine_by_name(rep["machine"])
     if rep.get("kind") == "sequence":
         engine.ensure_ctx(rep.get("opts", {}))
@@ -244,6 +276,8 @@ def cmd_check(mname, args):
     for r in knownhits:
         print("KNOWN-FINDING: property=%s %s" % (m.PROPERTY, r["known"].get("what_fails", r["detail"])))
     rc = 0
+    if m.PROPERTY == "C07":
+        rc = probe_pdaniell()
     for r in new:
         print("violation clause=%s runs_in_bucket=%d: %s" % (r["clause"], r["count"], r["detail"]))
         print("  minimised history: %s" % r["history"])
